@@ -124,7 +124,7 @@ func c18Scenarios(tier string) []*Scenario {
 			Run: func(w *World) {
 				t := w.OpenTunnel(TunCfg{})
 				if t.StartErr != nil {
-					w.Log(Event{Actor: "env", Op: "start", Err: t.StartErr.Error()})
+					w.Log(Event{Actor: "env", Op: "start", Err: t.StartErr.Error(), Code: "start-failed"})
 					return
 				}
 				w.Scripts["r1"] = &HandlerScript{ID: "r1", Tag: 1, Ops: []HOp{{K: "readctx"}, {K: "return", Size: 3}}}
@@ -203,7 +203,7 @@ func c18Scenarios(tier string) []*Scenario {
 				// tunnel survived
 				ok2 := false
 				for _, e := range w.Events {
-					if e.Actor == "caller:r2" && e.Op == "invoke" && e.Err == "" {
+					if e.Actor == "caller:r2" && e.Op == "invoke" && e.OK() {
 						ok2 = true
 					}
 				}
